@@ -208,6 +208,65 @@ def r15_3(facts, res, rule="R15-3"):
                             "the argument itself is not examined, so white space lets it carry more than a name" % path, f["file"], f["line"], {}))
 
 
+def r15_4(facts, res, rule="R15-4"):
+    """[22] prolog: the document type declaration precedes the root element.  XmlDocument::insert_by_id refuses a document
+    type whenever the document already has one *or already has a root element*; a weaker test (only when appending) lets
+    insert_before(doctype, Some(node after the root)) build a document that prints as `<r/><!DOCTYPE r>`."""
+    st = res.rule(rule, instances=1)
+    f = facts.fn("xml_info::<XmlDocument as HasChildren>::insert_by_id")
+    ok = False
+    why = "no refusal found in the DocumentType arm"
+    from props.c08 import variants_of_pat
+    for n in walk(f["body"]):
+        if n.get("k") == "Match" and n.get("src") == "Normal":
+            for arm in n["arms"]:
+                if "DocumentType" in variants_of_pat(arm["pat"]):
+                    for i in walk(arm["body"]):
+                        if i.get("k") == "If":
+                            calls = [m["m"] for m in walk(i["cond"]) if m.get("k") == "MethodCall"]
+                            ops = [m["op"] for m in walk(i["cond"]) if m.get("k") == "Binary"]
+                            if "document_declaration" in calls and "document_element" in calls:
+                                ok = "&&" not in ops
+                                why = "the refusal is weakened by a conjunction (%s)" % ops
+    res.oblige(1, ok)
+    if not ok:
+        res.add(Finding(rule, "XmlDocument::insert_by_id|DocumentType", "XmlDocument::insert_by_id: %s - a document type can be placed behind the root "
+                        "element and the serialisation is not a document" % why, f["file"], f["line"], {}))
+
+
+def r15_5(facts, res, rule="R15-5"):
+    """The DOM factories for character data build an empty item and fill it through the checked `insert` (which refuses
+    `]]>`, `--`, illegal characters).  The parser-side constructors `Xml*::node(text, ..)` store their text verbatim and are
+    for text that came out of the parser."""
+    st = res.rule(rule, instances=0)
+    for f in sorted(facts.fns.values(), key=lambda x: x["path"]):
+        if f["crate"] != "xml_dom" or "body" not in f or not re.search(r"as DocumentMut>::create_(text_node|comment|cdata_section)$", f["path"]):
+            continue
+        st["instances"] += 1
+        raw = [str(n["f"].get("path")) for n in walk(f["body"]) if n.get("k") == "Call" and re.search(r"^xml_info::Xml\w+::node$", str(n["f"].get("path", "")))]
+        checked = any(n.get("k") == "MethodCall" and n["m"] in ("insert", "set_data", "append") for n in walk(f["body"]))
+        ok = not raw and checked
+        res.oblige(1, ok)
+        if not ok:
+            res.add(Finding(rule, f["path"].split("::")[-1], "%s %s: data supplied through the factory is stored without the validity check"
+                            % (f["path"], ("calls the unchecked constructor %s" % raw) if raw else "does not go through the checked insert"), f["file"], f["line"], {}))
+    if st["instances"] < 3:
+        raise BrokenCheck("%s: %d character-data factories (floor 3)" % (rule, st["instances"]))
+
+
+def r15_6(facts, res, rule="R15-6"):
+    """Only text, character references and entity references can be pieces of an attribute value (XmlAttributeValue is built
+    from exactly those kinds, each as its own variant): a CDATA section accepted as a piece prints `<![CDATA[` inside the
+    attribute.  The machine-checked precondition `attr_value_kinds` of the panic reasons, used as a rule of its own."""
+    import reasons_e1
+    st = res.rule(rule, instances=1)
+    ok, why = reasons_e1.pre_attr_value_kinds(facts, set())
+    res.oblige(1, ok)
+    if not ok:
+        f = facts.fn("xml_info::<XmlAttributeValue as std::convert::TryFrom<std::rc::Rc<XmlItem>>>::try_from")
+        res.add(Finding(rule, "XmlAttributeValue|kinds", "pieces of attribute values: %s" % why, f["file"], f["line"], {}))
+
+
 def run(facts, tier):
     import xml10
     res = Result("C15")
@@ -326,4 +385,7 @@ def run(facts, tier):
         raise BrokenCheck("R15-2: %d template pairs (floor 5)" % st2["instances"])
     res.functions_analysed = st["instances"]
     r15_3(facts, res)
+    r15_4(facts, res)
+    r15_5(facts, res)
+    r15_6(facts, res)
     return res
